@@ -5,7 +5,7 @@
 From Coq Require Import ZArith List Bool.
 Import ListNotations.
 From SCMO Require Import Lib.Val Lib.PySlice Lib.PySliceFacts Model.C02Defs Model.C02Comp Model.C02Protocols
-     Gen.GenLayouts Gen.GenComp Model.C02 Proofs.C02 Proofs.C02_b Proofs.C02_comp.
+     Gen.GenLayouts Gen.GenComp Model.C02 Model.C02Fq Proofs.C02 Proofs.C02_b Proofs.C02_comp Proofs.C02_fq Proofs.C02_part.
 Open Scope Z_scope.
 
 (* ---- core, unbounded: EVERY contiguous layout of the plain shape (non-negative regions on read 1/2,
@@ -428,3 +428,159 @@ Proof.
   vm_compute. repeat split. discriminate.
 Qed.
 Print Assumptions C02_D5_refuted.
+
+(* ======== the file-level stream: FastqIterator / FastqHandle over lists of lines (Model/C02Fq.v) ======== *)
+
+(* framing: for EVERY list of files (each a list of lines) the k-th tuple holds, for file i, exactly lines
+   4k, 4k+1, 4k+2, 4k+3 (right-stripped): no line shared between records, none skipped *)
+Theorem C02_fq_framing : forall fuel files k tup i ls r,
+  nth_error (fq_iter fuel files) k = Some tup -> nth_error files i = Some ls -> nth_error tup i = Some r ->
+  f_header r = rstrip (nth (4 * k) ls []) /\ f_seq r = rstrip (nth (4 * k + 1) ls []) /\
+  f_plus r = rstrip (nth (4 * k + 2) ls []) /\ f_qual r = rstrip (nth (4 * k + 3) ls []).
+Proof. exact fq_iter_record. Qed.
+Print Assumptions C02_fq_framing.
+
+(* count and order: n line groups whose headers are non-blank in every file, group n blank or absent in
+   some file (the shortest file ends) -> exactly these n tuples in order *)
+Theorem C02_fq_exact : forall fuel files n,
+  (forall k, (k < n)%nat -> group_ok files k = true) -> (n < fuel)%nat -> group_ok files n = false ->
+  fq_iter fuel files = map (group files) (seq 0 n).
+Proof. exact fq_iter_exact. Qed.
+Print Assumptions C02_fq_exact.
+
+Theorem C02_fq_count : forall fuel files n,
+  (forall k, (k < n)%nat -> group_ok files k = true) -> (n < fuel)%nat -> group_ok files n = false ->
+  length (fq_iter fuel files) = n.
+Proof. exact fq_iter_count. Qed.
+Print Assumptions C02_fq_count.
+
+(* the bound on the number of __next__ calls does not matter once it exceeds the number of records *)
+Theorem C02_fq_fuel_irrelevant : forall fuel fuel' files n,
+  (forall k, (k < n)%nat -> group_ok files k = true) -> group_ok files n = false ->
+  (n < fuel)%nat -> (n < fuel')%nat -> fq_iter fuel files = fq_iter fuel' files.
+Proof. exact fq_iter_fuel_irrelevant. Qed.
+Print Assumptions C02_fq_fuel_irrelevant.
+
+(* FINDING (as coded): a trailing incomplete group of 1..3 lines is NOT rejected: it is emitted as one more
+   record whose missing fields are empty (empty qualities, possibly empty sequence) *)
+Theorem C02_fq_truncated_silent : forall fuel ls n j,
+  length ls = (4 * n + j)%nat -> (1 <= j <= 3)%nat ->
+  (forall k, (k <= n)%nat -> rstrip (nth (4 * k) ls []) <> []) -> (Datatypes.S n < fuel)%nat ->
+  length (fq_iter fuel [ls]) = Datatypes.S n /\
+  exists r, nth_error (fq_iter fuel [ls]) n = Some [r] /\ f_qual r = [] /\ f_header r <> [].
+Proof. exact fq_truncated. Qed.
+Print Assumptions C02_fq_truncated_silent.
+
+(* write then read: records written by FastqHandle.write (asFastq: '@header\nseq\nplus\nqual\n') and re-read
+   by FastqIterator come back unchanged, for fields without trailing white space *)
+Theorem C02_fq_roundtrip : forall recs fuel,
+  Forall clean4 recs -> (length recs < fuel)%nat ->
+  fq_iter fuel [fq_write recs] = map (fun r => [written r]) recs.
+Proof. exact fq_roundtrip. Qed.
+Print Assumptions C02_fq_roundtrip.
+
+(* end to end: lines of the input files -> bases of the emitted records.  For every list of input files, the
+   k-th tuple read, any layout: base j of emitted record i is character (insert start + j) of line 4k+1 of
+   file i, its quality the same character position of line 4k+3 of file i *)
+Theorem C02_file_to_record : forall fuel files k tup P b lookup out i ls o,
+  nth_error (fq_iter fuel files) k = Some tup ->
+  expected P b lookup (map mate_of tup) = Some out ->
+  nth_error files i = Some ls -> nth_error out i = Some o ->
+  (forall j, nth_error (o_seq o) j = nth_error (rstrip (nth (4 * k + 1) ls [])) (ins_of P i + j)) /\
+  (forall j, nth_error (o_qual o) j = nth_error (rstrip (nth (4 * k + 3) ls [])) (ins_of P i + j)).
+Proof. exact file_to_record. Qed.
+Print Assumptions C02_file_to_record.
+
+(* non-vacuity: two files, the second one record shorter -> one tuple; CRLF and blanks stripped *)
+Example C02_ex_fq_pair :
+  fq_records [[[64;97;10]; [65;67;13;10]; [43;10]; [73;73;10]; [64;98;10]; [71;10]; [43;10]; [73;10]];
+              [[64;97;10]; [84;84;10]; [43;10]; [74;74]]]
+  = [[mkF [64;97] [65;67] [43] [73;73]; mkF [64;97] [84;84] [43] [74;74]]].
+Proof. vm_compute. reflexivity. Qed.
+Print Assumptions C02_ex_fq_pair.
+(* a truncated last record (header and sequence only) is emitted with empty plus / qualities *)
+Example C02_ex_fq_truncated :
+  fq_records [[[64;97;10]; [65;10]; [43;10]; [73;10]; [64;98;10]; [71;10]]]
+  = [[mkF [64;97] [65] [43] [73]]; [mkF [64;98] [71] [] []]].
+Proof. vm_compute. reflexivity. Qed.
+Print Assumptions C02_ex_fq_truncated.
+(* a blank line where a header is expected ends the iteration although records follow *)
+Example C02_ex_fq_blank_stops :
+  fq_records [[[10]; [64;97;10]; [65;10]; [43;10]; [73;10]]] = [].
+Proof. vm_compute. reflexivity. Qed.
+Print Assumptions C02_ex_fq_blank_stops.
+Example C02_ex_fq_roundtrip :
+  fq_records [fq_write [([97], [65;67], [43], [73;73]); ([98], [71], [43], [74])]]
+  = [[mkF [64;97] [65;67] [43] [73;73]]; [mkF [64;98] [71] [43] [74]]].
+Proof. vm_compute. reflexivity. Qed.
+Print Assumptions C02_ex_fq_roundtrip.
+
+(* ======== the partition statement (exclusivity), strengthening C02_accounted ======== *)
+
+(* general: for EVERY layout that is well formed and passes partition_ok (tag regions pairwise disjoint, each
+   ending at or before the insert start of its mate), every position of mate i of an accepted input is in
+   EXACTLY one tag region and not emitted, or emitted and in no tag region *)
+Theorem C02_partition : forall P b lookup recs out i r o p,
+  wf_p P = true -> partition_ok P = true -> (i < 2)%nat ->
+  expected P b lookup recs = Some out -> nth_error recs i = Some r -> nth_error out i = Some o ->
+  (p < length (fst r))%nat ->
+  ((exists n reg, nth_error (tag_regions P) n = Some reg /\ in_region (Z.of_nat i) (Z.of_nat p) reg = true /\
+      (p < ins_of P i)%nat /\
+      forall n' reg', nth_error (tag_regions P) n' = Some reg' -> in_region (Z.of_nat i) (Z.of_nat p) reg' = true -> n' = n)
+   \/
+   ((ins_of P i <= p)%nat /\ nth_error (o_seq o) (p - ins_of P i) = nth_error (fst r) p /\
+      forall reg, In reg (tag_regions P) -> in_region (Z.of_nat i) (Z.of_nat p) reg = false)).
+Proof. exact partition. Qed.
+Print Assumptions C02_partition.
+
+(* the pinned table, by computation: 21 contiguous / scattered single-protocol strategies, all well formed;
+   15 satisfy partition_ok, the 6 exceptions are exactly partition_exceptions *)
+Theorem C02_partition_table :
+  length single_protocols = 21%nat /\
+  forallb (fun p => wf_p (pr_layout p) &&
+                    (partition_ok (pr_layout p) || existsb (sname_eqb (pr_name p)) partition_exceptions))
+          single_protocols = true /\
+  length (partition_names true) = 15%nat /\ partition_names false = partition_exceptions.
+Proof. exact partition_table. Qed.
+Print Assumptions C02_partition_table.
+
+Theorem C02_partition_registered : forall p,
+  In p single_protocols -> existsb (sname_eqb (pr_name p)) partition_exceptions = false ->
+  wf_p (pr_layout p) = true /\ partition_ok (pr_layout p) = true.
+Proof. exact partition_registered. Qed.
+Print Assumptions C02_partition_registered.
+
+(* the three scCHIC layouts and DamID2_3u4b3u6b: only the ligation-motif region breaks exclusivity *)
+Theorem C02_partition_lig_only_partial : forall p,
+  In p single_protocols -> existsb (sname_eqb (pr_name p)) lig_only_exceptions = true ->
+  only_lig_offends (pr_layout p) = true.
+Proof. exact partition_lig_only. Qed.
+Print Assumptions C02_partition_lig_only_partial.
+
+(* exclusivity REFUTED as coded: a ligation-motif base recorded in lh and emitted (scCHIC384C8U3, read 1 pos 12) *)
+Theorem C02_partition_lig_refuted :
+  exists p reg pos, In p single_protocols /\ p_lig (pr_layout p) = Some reg /\
+    in_region 0 pos reg = true /\ nth 0 (p_insert (pr_layout p)) 0 <= pos.
+Proof. exact partition_lig_refuted. Qed.
+Print Assumptions C02_partition_lig_refuted.
+
+(* exclusivity REFUTED as coded: a BARCODE base that is also emitted (DamID2_8bp_noCA, read 1 pos 10) *)
+Theorem C02_partition_barcode_refuted :
+  exists p reg pos, In p single_protocols /\ In reg (p_bc (pr_layout p)) /\
+    in_region 0 pos reg = true /\ nth 0 (p_insert (pr_layout p)) 0 <= pos.
+Proof. exact partition_barcode_refuted. Qed.
+Print Assumptions C02_partition_barcode_refuted.
+
+(* exclusivity REFUTED as coded: a base in two tags (DamID2: barcode 3..12 and ligation motif 11..12) *)
+Theorem C02_partition_two_tags_refuted :
+  exists p r1 r2 pos, In p single_protocols /\ In r1 (p_bc (pr_layout p)) /\ p_lig (pr_layout p) = Some r2 /\
+    in_region 0 pos r1 = true /\ in_region 0 pos r2 = true.
+Proof. exact partition_two_tags_refuted. Qed.
+Print Assumptions C02_partition_two_tags_refuted.
+
+(* non-vacuity: CS2C8U6 satisfies the hypotheses of C02_partition *)
+Example C02_ex_partition :
+  let P := mkP [(0, 6, 8)] [(0, 0, 6)] (Some (1, 0, 6)) None [14; 6] 2 2 in
+  wf_p P = true /\ partition_ok P = true.
+Proof. vm_compute. split; reflexivity. Qed.
+Print Assumptions C02_ex_partition.
